@@ -85,21 +85,23 @@ def _readers_values(m, c):
 def run_readers(c):
     live = _build_readers("M", c)
     v0 = _readers_values(live, c)
-    for n in range(c["j"]):
-        _remove(live, c, n)
+    le = [_try(_remove, live, c, n) for n in range(c["j"])]
     mid = None
     if c["seed"] % 2:                      # half of the cases evaluate the removed readers again before the edit
         mid = _readers_values(live, c)
-    _refedit(live, c)
+    le.append(_try(_refedit, live, c))
     v1 = _readers_values(live, c)
     fresh = _build_readers("F", c)
-    for n in range(c["j"]):
-        _remove(fresh, c, n)
-    _refedit(fresh, c)
+    fe = [_try(_remove, fresh, c, n) for n in range(c["j"])]
+    fe.append(_try(_refedit, fresh, c))
     v2 = _readers_values(fresh, c)
     fixture_ok = v0 != v2 and not any(isinstance(v, list) for v in v0 + v2)
     vio = []
-    if fixture_ok and v1 != v2:
+    if le != fe:
+        vio.append({"kind": "accept", "signature": "an edit is accepted or rejected depending on earlier evaluations",
+                    "detail": {"case": {a: c[a] for a in ("k", "j", "removal", "refedit", "uncached")},
+                               "live": le, "fresh": fe}})
+    elif fixture_ok and v1 != v2:
         vio.append({"kind": "stale",
                     "signature": "stale value: a reader of a reference by attribute path does not follow the reference "
                                  "after other readers of it were taken out (%s)" % c["removal"],
@@ -177,6 +179,14 @@ def run_equal(c):
     _close(live, fresh)
     return _result(c, vio, fixture_ok, "equalassign|%d|%d" % (c["pair"], c["uncached"]),
                    {"equal_assign": {label: 1}}, {"pair": label, "before": v0, "live": v1, "fresh": v2}, compared=3)
+
+
+def _try(fn, *a):
+    try:
+        fn(*a)
+        return "ok"
+    except Exception as e:      # noqa
+        return "raised " + type(e).__name__
 
 
 def _q(m):
